@@ -68,6 +68,7 @@ class Encoder:
             "mux": sorted(self.origin_name(i) for i in self.h2_origins),
             "muxGuess": guess,
             "noKeep": sorted(self.rid[n] for n in self.nokeep),
+            "threads": bool(getattr(self.run, "threads", False)),
         }
 
     def conn_state(self, c):
@@ -156,7 +157,7 @@ class Encoder:
                 bodyok[e["r"]] = bool(e.get("bodyok", True))
             elif k == "Fault":
                 if e["r"] in self.rid:
-                    evs.append({"e": "Fault", "r": self.rid[e["r"]], "obs": last})
+                    evs.append({"e": "Fault", "r": self.rid[e["r"]], "inj": e.get("fault") != "collateral", "obs": last})
             elif k == "Cancel":
                 evs.append({"e": "Cancel", "r": self.rid[e["r"]], "style": e["style"], "obs": last})
             elif k == "Tick":
@@ -184,8 +185,9 @@ class Encoder:
             elif k == "End":
                 last = self.obs(e["obs"])
                 gated = [self.rid[n] for n in self.run.waiting_gate if n in self.rid]
-                net = sorted({self.rid[op.task] for op in self.run.net.pending if op.task in self.rid and op.fut is not None and not op.fut.done()})
-                evs.append({"e": "End", "gated": gated, "netblocked": net, "obs": last})
+                net = sorted({self.rid[op.task] for op in self.run.net.pending if op.task in self.rid and (getattr(self.run, "threads", False) or (op.fut is not None and not op.fut.done()))})
+                live = sorted(self.rid[n] for n in e.get("live", []) if n in self.rid)
+                evs.append({"e": "End", "gated": gated, "netblocked": net, "live": live, "obs": last})
         return {"cfg": self.cfg(), "ev": evs}
 
 
@@ -222,6 +224,7 @@ DEVIATIONS = [
     "NativeCancelInShield",
     "ReconnectOnFailed",
     "WaiterCancelFlagsFailed",
+    "ActivateEvicted",
 ]  # same order as AllDevs in MCPoolTrace.tla
 
 
